@@ -130,17 +130,17 @@ PROPS.update({
                         "sockets through them; for TCP relay listeners it does not hold (finding F18)"]),
                 harnesses=["H2", "H8"]),
     "C05": h2prop(["TurnModel.Props.C05"], ["m:send", "m:cdata", "pdata"], ["topeer", "dind", "cdat"], ["chandata-padding"]),
-    "C06": dict(h2prop(["TurnModel.Props.C06", "TurnModel.Props.C06Timer"], ["m:alloc", "m:refresh", "adv", "state", "m:send", "pdata"], ["resp", "topeer", "dind", "cdat", "ev"],
+    "C06": dict(h2prop(["TurnModel.Props.C06", "TurnModel.Props.C06Timer", "TurnModel.Props.C06Reuse"], ["m:alloc", "m:refresh", "adv", "state", "m:send", "pdata"], ["resp", "topeer", "dind", "cdat", "ev"],
                        ["allocation-vanished-after-success", "refresh-success-then-expired", "data-race", "h11-setup"]), harnesses=["H2", "H11"]),
     "C07": dict(h2prop(["TurnModel.Props.C07", "TurnModel.Props.C07Trace", "TurnModel.Props.C07Timer"], ["m:perm", "m:bind", "adv", "m:send", "m:cdata", "pdata", "state"],
-                  ["resp", "topeer", "dind", "cdat"], ["entry-refreshed-then-expired", "h12-setup"]), harnesses=["H2", "H12"]),
+                  ["resp", "topeer", "dind", "cdat"], ["entry-refreshed-then-expired", "expired-entry-still-authorises", "success-for-ended-allocation", "h12-setup"]), harnesses=["H2", "H12"]),
     "C08": h2prop(["TurnModel.Props.C08"], ["m:bind", "m:cdata", "pdata", "state"], ["resp", "cdat", "topeer"],
                   ["chandata-invalid-number-emitted"]),
     "C19": dict(h2prop(["TurnModel.Props.C19"], ["m:*"], ["resp"], ["response-wrong-source", "shared-relay-port-udp4", "shared-relay-port-tcp4"],
                        ["allocate_truthful's relay uniqueness rests on the generator refusing a port in use: H8 checks it on real loopback sockets; for TCP relay listeners "
                         "it does not hold (finding F18)"]),
                 harnesses=["H2", "H8"]),
-    "C15": dict(h2prop(["TurnModel.Props.C15"], ["*"], ["ev", "net", "dclosed", "cclosed"],
+    "C15": dict(h2prop(["TurnModel.Props.C15", "TurnModel.Props.C15Attach"], ["*"], ["ev", "net", "dclosed", "cclosed"],
                   ["allocation-count-mismatch", "sockets-left-after-close", "server-close-leaves-control-connections", "even-port-probe-left-open", "bind-response-lost-leaks-peer-connection",
                    "connection-attached-to-dead-allocation", "state-attached-to-dead-allocation", "bind-refused-but-connection-kept", "h12-setup"],
                   ["PARTIAL: goroutines and timers are ghost state in the model (one timer per entity, one reader goroutine per allocation); "
@@ -157,8 +157,8 @@ PROPS.update({
 
 PROPS["C18"] = {
     "modules": ["TurnModel.Props.C18"], "gen": True,
-    "harnesses": ["H9", "H4", "H11", "H5"], "view": ["slowcb", "trace"], "outs": None,
-    "alarms": ["liveness-lost", "allocation-left", "txn-completion-race", "harness-died", "data-race", "concurrent-writers-mixed", "h11-setup", "manager-blocked-by-dial", "h9-setup", "server-wedged", "allocation-vanished-after-success", "concurrent-first-write-closes-allocation", "accept-blocked-after-close", "accept-deadline-not-sticky", "inbound-blocks", "h5-setup"],
+    "harnesses": ["H9", "H4", "H11", "H5", "H12"], "view": ["slowcb", "trace"], "outs": None,
+    "alarms": ["data-path-blocked-by-callback", "bound-connection-closed-by-bind-timer", "state-attached-to-dead-allocation", "h12-setup", "liveness-lost", "allocation-left", "txn-completion-race", "harness-died", "data-race", "concurrent-writers-mixed", "h11-setup", "manager-blocked-by-dial", "h9-setup", "server-wedged", "allocation-vanished-after-success", "concurrent-first-write-closes-allocation", "accept-blocked-after-close", "accept-deadline-not-sticky", "inbound-blocks", "h5-setup"],
     "rule": "regenerated obligations: xlate re-emits the lock skeleton of every function/closure touching a sync mutex (63 units, 26 lock ids), the call/guard "
             "skeleton of the request handlers and the AddPermission ordering facts from /repo's working tree on every run; the kernel re-checks balanced/guarded "
             "by decide; the translator also derives, over the static call graph, which mutexes each function may take (callee summaries) and the kernel re-checks that the resulting lock-order graph (mutex held -> mutex taken, over every path, through calls) is acyclic (lock_order_acyclic). Failing-input search / supporting run: H9 makes each lifecycle callback slow (1 s / 4 s virtual) and tears the allocation down during it by "
